@@ -402,6 +402,10 @@ def to_cfg(run):
             alphabet = {"a", EPS}
             for st_ in (qi, qf, p, q, p2, q2):
                 path.assume(st_.e != S0.e)      # states are not named like the start symbol (else they are renamed: wf obligation below)
+                for sym_ in alphabet:
+                    r_ = it.equals(st_, sym_)   # ... nor like an alphabet symbol (same: renaming is the wf obligation's subject)
+                    if isinstance(r_, I.Z):
+                        path.assume(z3.Not(r_.e))
             selfobj = Bag(R=Bag(), alphabet=alphabet, I=[(qi, wi)], F=[(qf, wf_)], states=[qi, qf, p, q, p2, q2],
                           arcs=I.Native("arcs", lambda i2, x, k: [(p, a, q, w1), (p2, EPS, q2, w2)]))
             fobj = I.FuncObj(fn, I.Env(None, {"EPSILON": EPS}), "WFSA.to_cfg")
@@ -409,7 +413,7 @@ def to_cfg(run):
             return list(adds), made
 
         try:
-            results = I.explore(harness, prune=False)
+            results = I.explore(harness, prune=True)
         except (I.OutOfSubset, I.PyRaise) as e:
             run.obligation(name, "out-of-subset", role="auxiliary", detail=str(e))
             continue
